@@ -177,7 +177,7 @@ func vfStaleSets(sc vfCleanScenario, m *vfModel) (staleEntries map[string][]stri
 		addressedFiles = append(addressedFiles, f)
 		for _, e := range m.files[f] {
 			name, k, ok := vfSplitID(e.ID)
-			if ok && m.addressed[f+"\x00"+name][k] {
+			if ok && m.addressed[f+"\x00"+name][k] && e.ID == fmt.Sprintf("%s - %d", name, k) {
 				addressedEntries[f] = append(addressedEntries[f], e.ID)
 				continue
 			}
